@@ -49,7 +49,8 @@ Outcome(s, kn) ==
                 THEN [class |-> "500", leaks |-> FALSE]          \* deferred unlock runs
          ELSE [class |-> "2xx", leaks |-> FALSE]
     [] s.ep = "recharge" ->
-         IF s.rparam \in {"u", "u_1_2"} THEN
+         IF s.supi = "slash" /\ s.rparam # "_" THEN [class |-> "4xx", leaks |-> FALSE]   \* a path-like identifier matches no route: 404
+         ELSE IF s.rparam \in {"u", "u_1_2"} THEN
                 (IF "rparam" \in DEV_NilDerefs THEN [class |-> "500", leaks |-> FALSE] ELSE [class |-> "4xx", leaks |-> FALSE])
          ELSE [class |-> "2xx", leaks |-> FALSE]
 
